@@ -25,7 +25,7 @@
    CellMax is never decremented again.                                                               *)
 EXTENDS Integers, Sequences, FiniteSets, TLC, Json
 
-CONSTANTS Keys, M, K, Tables, Counting, CellMax, TotMax, Amts, MaxN, MaxDepth, Whos, Channels, MaxReloads, MaxAdopt, Queries, EstTab, Bad
+CONSTANTS Keys, M, K, Tables, Counting, CellMax, TotMax, Amts, MaxN, MaxDepth, Whos, Channels, MaxReloads, MaxAdopt, Queries, EstTab, Bad, SetN
 
 VARIABLES pos, fs, hist, last
 vars == <<pos, fs, hist, last>>
@@ -100,6 +100,8 @@ Ops == {<<"add", w, k, a>> : w \in Whos, k \in Keys, a \in Amts}
        \cup {<<"rt", w, c, 0>> : w \in Whos, c \in Channels}          \* export + load through channel c: identity on the abstract state
        \cup {<<op, w, "", 0>> : op \in {"uni", "int"}, w \in Whos}
        \cup (IF Queries THEN {<<"chk", w, k, 0>> : w \in Whos, k \in Keys} \cup {<<"est", w, "", 0>> : w \in Whos} ELSE {})
+       \cup {<<"setn", w, "", v>> : w \in Whos, v \in SetN}          \* the public elements_added setter (in-memory filters): the counter is
+                                                                      \* then whatever the caller said (nest: no longer its documented meaning)
        \cup {<<"bad", w, k, v>> : w \in Whos, k \in Keys, v \in Bad}
           \* a call the library REJECTS (v = 1: add_alt, 2: remove_alt, 3: check_alt with a hash list that is too short): it raises, and the
           \* caller carries on with the same object - nothing was added, nothing removed (Bad = {} switches these off)
@@ -115,6 +117,7 @@ Do(o) == LET w == o[2]  f == fs[w] IN
                                  /\ LET r == RemF(f, o[3], o[4]) IN fs' = [fs EXCEPT ![w] = r.f] /\ last' = [o |-> o, ret |-> r.ret]
               [] o[1] = "clear" -> fs' = [fs EXCEPT ![w] = [EmptyF EXCEPT !.rl = f.rl, !.ad = f.ad]] /\ last' = [o |-> o, ret |-> -1]
               [] o[1] \in {"chk", "est", "bad"} -> fs' = fs /\ last' = [o |-> o, ret |-> -1]
+              [] o[1] = "setn" -> fs' = [fs EXCEPT ![w].n = o[4], ![w].nest = TRUE] /\ last' = [o |-> o, ret |-> -1]
               [] o[1] \in {"uni", "int"} -> /\ f.ad < MaxAdopt
                                             /\ fs' = [fs EXCEPT ![w] = Adopted(fs["A"], fs["B"], f, o[1])] /\ last' = [o |-> o, ret |-> -1]
               [] o[1] = "rt" -> /\ f.rl < MaxReloads
